@@ -234,12 +234,12 @@ PROPS = {
             {'what': 'translate/locktable does not understand mappollard.go (lock table not established; a stub table was written, lockTable_ok fails)',
              'cmd': ['.work/bin/locktable', '{REPO}/mappollard.go', 'lean/UtreexoVerif/Gen/LockTable.lean']},
         ],
-        'tie_modules': ['UtreexoVerif.Props.C12Table'],
+        'tie_modules': ['UtreexoVerif.Props.C12Table', 'UtreexoVerif.Props.C12Single'],
         'lean_modules': ['UtreexoVerif.Props.C12'],
         'theorems': ['UtreexoVerif.Props.C12.' + t for t in ['C12_of_discipline', 'discipline_sound', 'discipline_wf', 'raceFree', 'atomic',
                      'reader_sees_whole_block', 'reader_view_stable', 'writer_excludes', 'others_blocked_while_writer_inside', 'deadlockFree', 'immutable_const',
                      'Examples.unlocked_getter_races', 'Examples.reentrancy_deadlocks', 'Examples.split_block_is_visible']] +
-                    ['UtreexoVerif.Props.C12Table.' + t for t in ['C12', 'translation_ok', 'allMethods_complete', 'lockTable_ok', 'queries_single_section',
+                    ['UtreexoVerif.Props.C12Single.' + t for t in ['real_single_section_strong', 'real_calls_single_section', 'real_exported_lock', 'real_call_shape', 'single_section_call', 'single_section_locked', 'single_section_locked_counts', 'single_section_unlocked', 'acquire_not_single', 'not_single_many_acquires', 'single_section_call_statement_false', 'PreGap.preGap', 'FuelGap.fuelGap', 'Negative.both_two_sections']] + ['UtreexoVerif.Props.C12Table.' + t for t in ['C12', 'translation_ok', 'allMethods_complete', 'lockTable_ok', 'queries_single_section',
                      'full_immutable', 'hooks_in_write_sections', 'Examples.getNumLeaves_api', 'Examples.modifyOnce_api']] +
                     ['UtreexoVerif.Proofs.Lock.' + t for t in ['mutual_exclusion', 'threadsOK_step', 'lockInv_step', 'atomic_step',
                      'frozen_step', 'inv_reachable', 'gen_wf', 'apiProg_wf']],
